@@ -1,6 +1,8 @@
 (** C17 — truncated UDP replies are retried over TCP.
     Only statements, each closed by [exact] of a lemma from Proofs/UdpTc.v. *)
+From Coq Require Import String.   (* before Prelude: [length], [++] stay the list ones *)
 From Verif Require Import Base.Prelude Gen.Constants Model.UdpTc Proofs.UdpTc.
+From Verif Require Model.Addr.
 Open Scope N_scope.
 
 (** ** The TC test *)
@@ -204,6 +206,30 @@ Print Assumptions c17_step.
 Theorem c17_session l xs s : session_ok l s xs (run_session l s xs).
 Proof. exact (run_session_ok l xs s). Qed.
 Print Assumptions c17_session.
+
+(** ** "... to the same server"
+
+    For every upstream string and every Opt.DialAddr for which NewUpstream
+    builds a plain-UDP upstream, the address the TCP retry dials is the address
+    the UDP query is sent to (and that is the C18 target: DialAddr when set,
+    else the url host; port from it or 53). *)
+Theorem c17_retry_same_server addr dial_addr d :
+  udp_upstream_dials addr dial_addr = Some d -> d_tcp d = d_udp d.
+Proof. exact (retry_same_server addr dial_addr d). Qed.
+Print Assumptions c17_retry_same_server.
+
+Theorem c17_udp_dials_target addr dial_addr d :
+  udp_upstream_dials addr dial_addr = Some d ->
+  exists t, Addr.new_upstream Addr.ip_literal addr dial_addr false = Some t /\
+            Addr.t_transport t = Addr.TUdp /\ d_udp d = (Addr.t_host t, Addr.t_port t).
+Proof. exact (udp_dials_target addr dial_addr d). Qed.
+Print Assumptions c17_udp_dials_target.
+
+(** Non-vacuity of the above: url host 127.0.0.2 (no port), DialAddr 127.0.0.1:5353. *)
+Example c17_dials_nonvacuous :
+  udp_upstream_dials (Addr.lit "udp://127.0.0.2"%string) (Addr.lit "127.0.0.1:5353"%string)
+  = Some (mkDials (Addr.lit "127.0.0.1"%string, 5353) (Addr.lit "127.0.0.1"%string, 5353)).
+Proof. vm_compute. reflexivity. Qed.
 
 (** Non-vacuity: a reply with flag bytes 0x87 0x80 (QR, AA, TC, RD) preceded by
     an 11 byte datagram with TC set and followed by a second reply: the caller
